@@ -325,9 +325,13 @@ func TestVerifEMDrop(t *testing.T) {
 			}
 			frame += int64(gap)
 			drops = append(drops, gap)
+			flagged := gap
+			if run%2 == 0 {
+				flagged = 0 // the ROACH source numbers a block later without setting droppedFrames: the numbering is what counts
+			}
 			block := new(dataBlock)
 			block.segments = []DataSegment{{rawData: data, framesPerSample: 1, framePeriod: ds.samplePeriod, firstFrameIndex: FrameIndex(frame),
-				firstTime: time.Unix(1700000000, 0).Add(time.Duration(frame) * ds.samplePeriod), droppedFrames: gap}}
+				firstTime: time.Unix(1700000000, 0).Add(time.Duration(frame) * ds.samplePeriod), droppedFrames: flagged}}
 			block.nSamp = L
 			func() {
 				defer func() {
